@@ -225,6 +225,16 @@ func pardoWorld(r *R) {
 		}
 	}
 	callerDead := caller.Dead()
+	if withCtx && retErr == nil {
+		// a nil return claims success: then every index must have been called (whatever happened
+		// to the caller's context meanwhile)
+		for i := 0; i < n; i++ {
+			if len(calls[i]) != 1 {
+				r.Violate("C13", "nil-return-with-calls-missing", "the call returned nil although f was never called for index %d (caller context dead: %v)", i, callerDead)
+				return
+			}
+		}
+	}
 	if nfailReturned := len(failReturned); nfailReturned == 0 && !(withCtx && callerDead) {
 		// no call failed and the caller's context is live: exactly once each, results in place, nil error
 		for i := 0; i < n; i++ {
